@@ -75,7 +75,7 @@ package sftp
 //@ func unmarshalExtensionPair
 //@   property C08, C20, C19
 //@   results ep, rest, err
-//@   ensures err == nil ==> len(rest) < len(b)
+//@   ensures err == nil ==> len(rest) + 8 <= len(b)
 //@   modifies nothing
 
 //@ func unmarshalIDString
@@ -365,3 +365,126 @@ package sftp
 //@ func (*File).Sync
 //@   property C20
 //@   requires fileOK(f) && f.c.ext != nil
+
+// ---------------------------------------------------------------------------
+// request decoding (packet.go, packet-typing.go): total and bounded on arbitrary bytes (C08, C07)
+
+//@ func (*allocator).GetPage
+//@   trusted
+//@   requires a.used != nil
+//@   ensures len(result) == maxMsgLength && cap(result) == maxMsgLength
+//@   modifies a.available, mapof a.used, elems []byte
+// (page-size invariant of the allocator: every page handed out was made with len == cap == maxMsgLength; see C18)
+
+//@ func recvPacket
+//@   property C08, C07
+//@   results typ, payload, err
+//@   alloc-bound maxMsgLength + 64
+//@   requires r != nil
+//@   requires alloc != nil ==> alloc.used != nil
+//@   assert before call io.ReadFull#2: len(arg1) >= 1 && len(arg1) <= maxMsgLength && len(arg1) == int(length)
+//@   ensures err == nil ==> len(payload) < maxMsgLength
+
+//@ func makePacket
+//@   property C08, C07
+//@   results pkt, err
+//@   alloc-bound 4*len(p.pktBytes) + 64
+
+//@ func (*sshFxInitPacket).UnmarshalBinary
+//@   property C08, C07, C19
+//@   alloc-bound (len(old(b)) << 3) + (old(len(p.Extensions)) << 6) + 4096
+//@   loop 1 invariant len(b) <= len(old(b))
+//@   loop 1 invariant len(p.Extensions) >= old(len(p.Extensions))
+//@   loop 1 invariant (len(p.Extensions) - old(len(p.Extensions))) << 3 <= len(old(b)) - len(b)
+
+//@ func (*sshFxpClosePacket).UnmarshalBinary
+//@   property C08, C07
+//@   alloc-bound 4*len(b) + 64
+
+//@ func (*sshFxpDataPacket).UnmarshalBinary
+//@   property C08, C07
+//@   alloc-bound 4*len(b) + 64
+
+//@ func (*sshFxpExtendedPacket).UnmarshalBinary
+//@   property C08, C07
+//@   alloc-bound 4*len(b) + 64
+
+//@ func (*sshFxpExtendedPacketHardlink).UnmarshalBinary
+//@   property C08, C07
+//@   alloc-bound 4*len(b) + 64
+
+//@ func (*sshFxpExtendedPacketPosixRename).UnmarshalBinary
+//@   property C08, C07
+//@   alloc-bound 4*len(b) + 64
+
+//@ func (*sshFxpExtendedPacketStatVFS).UnmarshalBinary
+//@   property C08, C07
+//@   alloc-bound 4*len(b) + 64
+
+//@ func (*sshFxpFsetstatPacket).UnmarshalBinary
+//@   property C08, C07
+//@   alloc-bound 4*len(b) + 64
+
+//@ func (*sshFxpFstatPacket).UnmarshalBinary
+//@   property C08, C07
+//@   alloc-bound 4*len(b) + 64
+
+//@ func (*sshFxpLstatPacket).UnmarshalBinary
+//@   property C08, C07
+//@   alloc-bound 4*len(b) + 64
+
+//@ func (*sshFxpMkdirPacket).UnmarshalBinary
+//@   property C08, C07
+//@   alloc-bound 4*len(b) + 64
+
+//@ func (*sshFxpOpenPacket).UnmarshalBinary
+//@   property C08, C07
+//@   alloc-bound 4*len(b) + 64
+
+//@ func (*sshFxpOpendirPacket).UnmarshalBinary
+//@   property C08, C07
+//@   alloc-bound 4*len(b) + 64
+
+//@ func (*sshFxpReadPacket).UnmarshalBinary
+//@   property C08, C07
+//@   alloc-bound 4*len(b) + 64
+
+//@ func (*sshFxpReaddirPacket).UnmarshalBinary
+//@   property C08, C07
+//@   alloc-bound 4*len(b) + 64
+
+//@ func (*sshFxpReadlinkPacket).UnmarshalBinary
+//@   property C08, C07
+//@   alloc-bound 4*len(b) + 64
+
+//@ func (*sshFxpRealpathPacket).UnmarshalBinary
+//@   property C08, C07
+//@   alloc-bound 4*len(b) + 64
+
+//@ func (*sshFxpRemovePacket).UnmarshalBinary
+//@   property C08, C07
+//@   alloc-bound 4*len(b) + 64
+
+//@ func (*sshFxpRenamePacket).UnmarshalBinary
+//@   property C08, C07
+//@   alloc-bound 4*len(b) + 64
+
+//@ func (*sshFxpRmdirPacket).UnmarshalBinary
+//@   property C08, C07
+//@   alloc-bound 4*len(b) + 64
+
+//@ func (*sshFxpSetstatPacket).UnmarshalBinary
+//@   property C08, C07
+//@   alloc-bound 4*len(b) + 64
+
+//@ func (*sshFxpStatPacket).UnmarshalBinary
+//@   property C08, C07
+//@   alloc-bound 4*len(b) + 64
+
+//@ func (*sshFxpSymlinkPacket).UnmarshalBinary
+//@   property C08, C07
+//@   alloc-bound 4*len(b) + 64
+
+//@ func (*sshFxpWritePacket).UnmarshalBinary
+//@   property C08, C07
+//@   alloc-bound 4*len(b) + 64
